@@ -277,8 +277,10 @@ class Materialiser:
 class Findings:
     def __init__(self, prop):
         self.prop = prop
-        path = os.path.join(VERIF, "known_findings.json")
-        self.entries = [e for e in json.load(open(path)) if e.get("property") == prop] if os.path.exists(path) else []
+        import glob
+        self.entries = []
+        for path in sorted(glob.glob(os.path.join(VERIF, "known_findings*.json"))):
+            self.entries += [e for e in json.load(open(path)) if e.get("property") == prop]
         self.known_hit = {}
         self.violations = []      # dicts: kind, name, detail, case
         self.mismatches = []
